@@ -237,6 +237,11 @@ where
             {
                 // Latency mode: wait for delay or result
                 let mut delay_fut = std::pin::pin!(tokio::time::sleep(delay));
+                // The delay before hedge k+1 counts from the start of hedge k, which may be later
+                // than its spawn (the clone has to become ready first): hedges report their start
+                // here, and only then is the next delay armed.
+                let (started_tx, mut started_rx) = mpsc::unbounded_channel::<usize>();
+                let mut delay_armed = true;
 
                 loop {
                     tokio::select! {
@@ -289,8 +294,18 @@ where
                             }
                         }
 
+                        // The latest hedge has started: its successor's delay counts from now
+                        Some(started) = started_rx.recv(), if !delay_armed => {
+                            if started == hedges_spawned && hedges_spawned + 1 < max_attempts {
+                                if let Some(next_delay) = config.delay.get_delay(hedges_spawned + 1) {
+                                    delay_fut.set(tokio::time::sleep(next_delay));
+                                    delay_armed = true;
+                                }
+                            }
+                        }
+
                         // Delay elapsed, spawn hedge
-                        _ = &mut delay_fut, if hedges_spawned + 1 < max_attempts => {
+                        _ = &mut delay_fut, if delay_armed && hedges_spawned + 1 < max_attempts => {
                             hedges_spawned += 1;
                             let attempt_num = hedges_spawned;
 
@@ -304,20 +319,20 @@ where
                             let mut svc = hedge_service.clone();
                             let r = req.clone();
                             let tx_c = tx.clone();
+                            let started_c = started_tx.clone();
                             tokio::spawn(async move {
-                                let result = match futures::future::poll_fn(|cx| svc.poll_ready(cx)).await {
+                                let ready = futures::future::poll_fn(|cx| svc.poll_ready(cx)).await;
+                                // started (or failed to): the next hedge's delay counts from here
+                                let _ = started_c.send(attempt_num);
+                                let result = match ready {
                                     Ok(()) => svc.call(r).await,
                                     Err(e) => Err(e),
                                 };
                                 let _ = tx_c.send((attempt_num, result)).await;
                             });
 
-                            // Set up next delay if more hedges available
-                            if hedges_spawned + 1 < max_attempts {
-                                if let Some(next_delay) = config.delay.get_delay(hedges_spawned + 1) {
-                                    delay_fut.set(tokio::time::sleep(next_delay));
-                                }
-                            }
+                            // The next delay is armed when this hedge reports its start
+                            delay_armed = false;
                         }
 
                         else => {
